@@ -58,6 +58,7 @@ type c10case struct {
 	rawSecret   bool   // a credential contains the return character: the device sees other lines
 	ncCaps      []string
 	ncSession   uint64
+	bigBanner   int // size class of the text between the last credential and the shell prompt (0 = usual)
 }
 
 var c10banner = []string{
@@ -413,6 +414,10 @@ type c10obs struct {
 	ncCaps      []string
 	didNC       bool
 	didP        bool
+	didD        bool
+	drained     []byte
+	streamAll   []byte
+	lastEmit    []byte
 }
 
 var c10letter = map[string]string{sim.LoginUser: "u", sim.LoginPass: "w", sim.LoginPhrase: "f", sim.LoginShell: "p", sim.LoginErr: "e", sim.LoginSilence: "q"}
@@ -571,6 +576,34 @@ func runC10case(cs c10case, slow int) c10obs {
 		case cs.bypass || cs.plain || cs.faultKind != "":
 			// nothing was negotiated (whatever the device showed is still unread) / the transport is
 			// about to die: what happens after Open belongs to other properties
+		case cs.firstOp == "D" || (!cs.ext && cs.seed%3 == 0):
+			// drain: once the transport has handed over everything the device printed, everything
+			// read during the login plus whatever arrived later must be in the queue
+			o.didD = true
+			deadline := time.Now().Add(time.Duration(slow) * 2 * time.Second)
+			for time.Now().Before(deadline) {
+				done := false
+				lg.Snapshot(func() { done = lg.Delivered >= lg.Emitted })
+				if done {
+					break
+				}
+				time.Sleep(200 * time.Microsecond)
+			}
+			time.Sleep(time.Duration(slow) * 3 * time.Millisecond)
+			for i := 0; i < 3; i++ {
+				b, err := d.gd.Channel.ReadAll()
+				if err != nil {
+					break
+				}
+				o.drained = append(o.drained, b...)
+				time.Sleep(time.Millisecond)
+			}
+			lg.Snapshot(func() {
+				o.streamAll = append(o.streamAll, lg.DeliveredBytes()...)
+				if n := len(lg.Emissions); n > 0 {
+					o.lastEmit = append(o.lastEmit, lg.EmittedBytes()[lg.Emissions[n-1].Start:]...)
+				}
+			})
 		case cs.firstOp == "C":
 			o.didC = true
 			r, err := d.gd.SendCommand("show version")
@@ -614,6 +647,7 @@ func runC10(c *ctx) {
 		}
 		if len(f) >= 2 && f[0] == "c10x" {
 			seed, _ := strconv.ParseUint(f[1], 10, 64)
+			c10xThorough = len(f) > 2 && f[2] == "thorough"
 			c10check(c, []c10case{genC10x(seed)})
 			return
 		}
@@ -626,6 +660,7 @@ func runC10(c *ctx) {
 		return
 	}
 	facts.Repo = repoDir()
+	c10xThorough = c.thorough()
 	rxDiff(c, []string{"Channel.", "Util.ansiPattern"}, c.n(150, 2000))
 	c10Internal(c)
 	if cst := strings.Fields(c.ask([]string{"c10 consts"})[0]); len(cst) != 3 || cst[0] != "2" || cst[1] != "2" || cst[2] != "2" {
@@ -938,12 +973,23 @@ func c10judge(cs c10case, o c10obs, ans string) (dom bool, fs []c10finding, nont
 			add("oracle", "netconf-hello", "netconf Open after in-channel login: session-id %d capabilities %v, the server sent %d %v", o.ncSession, o.ncCaps, cs.ncSession, cs.ncCaps)
 		}
 	}
+	if want == "nil" && o.outcome == "nil" && o.didD && !cs.malformed && len(o.lines) > 0 {
+		norm := func(b []byte) []byte { return bytes.ReplaceAll(b, []byte("\r"), nil) }
+		all, last, got := norm(o.streamAll), norm(o.lastEmit), o.drained
+		if !bytes.HasSuffix(got, last) || !bytes.HasSuffix(all, got) {
+			k := len(got)
+			if k > 60 {
+				k = 60
+			}
+			add("oracle", "requeue-incomplete", "after a successful Open the queue holds %d bytes (starting %q); the device printed %d bytes after the last credential (%d in all): everything read during the login must remain available to the first operation", len(got), got[:k], len(last), len(all))
+		}
+	}
 	if want == "nil" && o.outcome == "nil" && o.didC {
 		if o.cmdErr != "nil" || o.cmdResult != c10cmdOutput {
 			add("oracle", "first-command", "first SendCommand after Open: result %q err %s, the device printed %q", o.cmdResult, o.cmdErr, c10cmdOutput)
 		}
 	}
-	if want == "nil" && o.outcome == "nil" && !o.didNC && !o.didC && !cs.bypass && !cs.plain {
+	if want == "nil" && o.outcome == "nil" && !o.didNC && !o.didC && !o.didD && !cs.bypass && !cs.plain {
 		wp := strings.TrimSpace(cs.prompt)
 		if cs.malformed {
 			// fragment streams carry their own pseudo prompts: nothing to compare the content with
@@ -1031,7 +1077,7 @@ func c10check(c *ctx, cases []c10case) {
 			res.Count("canonical")
 		}
 		if cs.ext {
-			caseLine = fmt.Sprintf("c10x %d", cs.seed)
+			caseLine = fmt.Sprintf("c10x %d%s", cs.seed, tier)
 			res.Count("x entry:" + cs.entry)
 			res.Count(fmt.Sprintf("x patset:%s platform-options:%v", facts.AuthPool[cs.patSet].Name, cs.viaPlatform))
 			res.Count("x first-op:" + cs.firstOp)
@@ -1046,6 +1092,12 @@ func c10check(c *ctx, cases []c10case) {
 			}
 			if cs.rawSecret {
 				res.Count("x secret-with-return")
+			}
+			switch {
+			case cs.bigBanner >= 999 && cs.bigBanner <= 1001:
+				res.Count(fmt.Sprintf("x post-login-text:%d depth-default:%v", cs.bigBanner, cs.depth == 1000))
+			case cs.bigBanner > 1001:
+				res.Count(fmt.Sprintf("x post-login-text:%dKB depth-default:%v", cs.bigBanner/1000, cs.depth == 1000))
 			}
 			if cs.user == "" || cs.pass == "" {
 				res.Count("x empty-user-or-password")
